@@ -616,7 +616,7 @@ func genSweepShared(t *testing.T) {
 	}
 }
 
-var smallBounds = []uint32{3, 5, 6, 7, 10, 12, 26, 36, 52, 55, 62, 68, 94, 1000, 10129, 18325, 65535, 65537}
+var smallBounds = []uint32{3, 5, 6, 7, 10, 12, 15, 17, 26, 36, 51, 52, 55, 62, 68, 85, 94, 255, 257, 1000, 4369, 10129, 18325, 65535, 65537, 196611}
 
 func c01Bounds() (shared []uint32, solo []uint32) {
 	seed := ev.Cfg.Seed
@@ -631,6 +631,8 @@ func c01Bounds() (shared []uint32, solo []uint32) {
 			odd[ev.Mix64(seed, 2)%uint64(len(odd))],
 			even[ev.Mix64(seed, 4)%uint64(len(even))],
 			pick(3, 1<<16, 1<<24),
+			// a divisor of 2^32-1 = 3*5*17*257*65537 (the largest raw word is then the only one to reject)
+			[]uint32{3, 5, 15, 17, 51, 85, 255, 257, 771, 1285, 4369, 13107, 21845, 65535, 65537, 196611}[ev.Mix64(seed, 5)%16],
 		}
 		return
 	}
